@@ -26,15 +26,23 @@ class Case:
         self.next_id = 1
 
     # ---- commands
-    def log(self, t, lg=0, lvl=4, pad=0, mode=0, stall=False, id=None):
+    def log(self, t, lg=0, lvl=4, pad=0, mode=0, stall=False, id=None, static=False):
         i = id if id is not None else self.next_id
         self.next_id = max(self.next_id, i) + 1
-        c = ('log', t, i, lg, lvl, HDR_LOG + pad, mode, stall); self.cmds.append(c); return i
+        # static=True: a static-level call site (no dynamic level byte in the record); mode + 10 tells the harness
+        c = ('log', t, i, lg, lvl, (HDR_LOG - 1 if static else HDR_LOG) + pad, mode + (10 if static else 0), stall); self.cmds.append(c); return i
     def resume(self, t): self.cmds.append(('resume', t))
     def flush(self, t, lg=0):
         i = self.next_id; self.next_id += 1
         self.cmds.append(('flush', t, i, lg, SZ_FLUSH)); return i
     def exit(self, t): self.cmds.append(('exit', t))
+    def init_bt(self, t, lg=0, cap=3, flvl=10):
+        i = self.next_id; self.next_id += 1
+        self.cmds.append(('initbt', t, i, lg, cap, flvl, 36)); return i
+    def flush_bt(self, t, lg=0):
+        i = self.next_id; self.next_id += 1
+        self.cmds.append(('flushbt', t, i, lg, 32)); return i
+    def add_filter(self, k, m): self.cmds.append(('addfilter', k, m))
     def set_level(self, l, v): self.cmds.append(('setlevel', l, v))
     def set_sink_level(self, k, v): self.cmds.append(('setsinklevel', k, v))
     def tick(self, d): self.cmds.append(('tick', d))
@@ -52,6 +60,9 @@ class Case:
         if k == 'setsinklevel': return [7, c[1], c[2]]
         if k == 'tick': return [8, c[1]]
         if k == 'ctx': return [10]
+        if k == 'initbt': return [11, c[1], c[2], c[3], c[4], c[5], c[6]]
+        if k == 'flushbt': return [12, c[1], c[2], c[3], c[4]]
+        if k == 'addfilter': return [13, c[1], c[2]]
         raise ValueError(k)
 
     def line(self):
@@ -63,7 +74,10 @@ class Case:
         rf2 = 0 if f.get('be_refresh_after_clock') == 'false' else 1
         ca = 0 if f.get('be_format_catch_all') == 'false' else 1
         rfirst = 0 if f.get('be_report_before_ctx_removal') == 'false' else 1
-        out = ['be', self.dropping, self.capk, batch_of(C), ob, od, self.tinit, self.soft, self.hard, self.grace, bits, rf2, ca, rfirst, CLOCK0]
+        btr = 0 if f.get('bt_reset_index') == 'false' else 1
+        btg = 0 if f.get('bt_cap0_guard') == 'false' else 1
+        btc = 0 if f.get('be_bt_replay_catch') == 'false' else 1
+        out = ['be', self.dropping, self.capk, batch_of(C), ob, od, self.tinit, self.soft, self.hard, self.grace, bits, rf2, ca, rfirst, btr, btg, btc, CLOCK0]
         out.append(len(self.loggers))
         for lvl, ks in self.loggers: out += [lvl, len(ks)] + list(ks)
         out.append(len(self.sinks))
@@ -119,7 +133,7 @@ def align(case, obs):
     for c in case.cmds:
         if c[0] == 'poll':
             # injected commands that produce results, in listed order (the generator lists them in firing order)
-            pend = [s for (_, _, cs) in c[1] for s in cs if s[0] in ('log', 'resume', 'flush', 'exit')]
+            pend = [s for (_, _, cs) in c[1] for s in cs if s[0] in ('log', 'resume', 'flush', 'exit', 'initbt', 'flushbt')]
             while True:
                 p = next_res()
                 if p >= len(obs): break
@@ -127,7 +141,7 @@ def align(case, obs):
                 if obs[p][0] == 'res' and pend:
                     res.append((pend.pop(0), obs[p][1], p))
                 pos = p + 1
-        elif c[0] in ('log', 'resume', 'flush', 'exit'):
+        elif c[0] in ('log', 'resume', 'flush', 'exit', 'initbt', 'flushbt'):
             p = next_res()
             if p < len(obs) and obs[p][0] == 'res':
                 res.append((c, obs[p][1], p)); pos = p + 1
@@ -151,6 +165,7 @@ class Track:
         self.notes = []      # (pos, kind, n)
         self.ctx = []        # (pos, n)
         self.exits = []      # (pos, thread)
+        self.ctl = []        # (pos, kind, cmd) completed backtrace control requests
         self.ok = obs is not None
         if not self.ok: return
         for p, o in enumerate(obs):
@@ -170,13 +185,13 @@ class Track:
             if kind == 'tick': clock += c[1]; return
             if kind == 'setlevel': levels[c[1]] = c[2]; return
             if kind in ('setsinklevel',): return
-            if kind in ('log', 'resume', 'flush', 'exit', 'ctx'):
+            if kind in ('log', 'resume', 'flush', 'exit', 'ctx', 'initbt', 'flushbt'):
                 if k >= len(al) or al[k][0] is not c:
                     return
                 code, pos = al[k][1], al[k][2]; k += 1
                 if kind == 'log':
                     t, i, lgi, lvl = c[1], c[2], c[3], c[4]
-                    d = dict(thread=t, logger=lgi, level=lvl, ts=clock, size=c[5], mode=c[6], pos=pos, outcome=None, ret=None)
+                    d = dict(thread=t, logger=lgi, level=lvl, ts=clock, size=c[5], mode=c[6] % 10, static=c[6] >= 10, pos=pos, outcome=None, ret=None)
                     self.stmts[i] = d
                     if t in pending or t in dead: d['outcome'] = 'ignored'
                     elif lvl < levels[lgi]: d['outcome'] = 'filtered'
@@ -199,8 +214,13 @@ class Track:
                             del pending[t]
                             if what == 'log':
                                 self.stmts[i]['outcome'] = 'accepted' if code == 1 else 'dropped'; self.stmts[i]['ret'] = pos
-                            else:
+                            elif what == 'flush':
                                 self.flushes[i]['ret'] = pos
+                elif kind in ('initbt', 'flushbt'):
+                    t = c[1]
+                    if t in pending or t in dead: pass
+                    elif code == 2: pending[t] = ('ctl', c[2])
+                    else: self.ctl.append((pos, kind, c))
                 elif kind == 'exit':
                     t = c[1]
                     if code == 1: dead.add(t); self.exits.append((pos, t))
